@@ -660,12 +660,27 @@ pub fn gen_case(rng: &mut Rng) -> Case {
                 inputs.push(p);
             }
             _ => {
-                // valid, possibly with a dependency placed in the input's directory, the load path, both or neither
-                let p = join(dir, &format!("in{k}.scss"));
+                // valid, possibly with a dependency placed in the input's directory, the load path, both or neither.
+                // Sometimes the file is NAMED like the first input and lives in another directory: two inputs
+                // that differ only in their directory are two inputs
+                let same_name_dir = if k >= 1 && inputs.first().is_some_and(|f| f.ends_with(".scss")) && rng.chance(1, 4) { Some(format!("twin{k}")) } else { None };
+                let dir: &str = match &same_name_dir {
+                    Some(d) => d.as_str(),
+                    None => dir,
+                };
+                let p = match (&same_name_dir, inputs.first()) {
+                    (Some(d), Some(first)) => join(d, first.rsplit('/').next().unwrap_or("in0.scss")),
+                    _ => join(dir, &format!("in{k}.scss")),
+                };
                 let mut pre: Option<String> = None;
                 let dep = if rng.chance(1, 2) {
                     let how = *rng.pick(&["@import \"dep{k}\";\n", "@use \"dep{k}\";\n", "@use \"dep{k}\" as d;\n"]);
-                    let stmt = how.replace("{k}", &k.to_string());
+                    let mut stmt = how.replace("{k}", &k.to_string());
+                    // the same file loaded twice by one input (what a loader hands out for a url must be a
+                    // fresh view of the file every time)
+                    if stmt.starts_with("@import") && rng.chance(1, 3) {
+                        stmt = format!("{stmt}{stmt}");
+                    }
                     let in_dir = rng.chance(2, 3);
                     let in_lp = load_path.is_some() && rng.chance(2, 3);
                     let partial = rng.chance(1, 2);
